@@ -416,3 +416,64 @@ func VX_C05_ThriftPipeSeq(args []int) {
 	}
 	vxCover("c05.thrift.pipeseq")
 }
+
+func init() { vxRegister("VX_C05_ThriftConcurrentPack", VX_C05_ThriftConcurrentPack) }
+
+// VX_C05_ThriftConcurrentPack: two goroutines write one message each through
+// the same protocol instance (socket.WriteMessage allows concurrent writers);
+// for every schedule within the preemption bound each message reports the
+// size it reports when it is packed alone, the two frames are on the wire one
+// after the other and both decode. args: proto(0 binary, 1 struct), preemptions
+func VX_C05_ThriftConcurrentPack(args []int) {
+	which, pre := args[0], args[1]
+	pf := NewBinaryProtoFunc()
+	mk := func(seq int32, txt string) socket.Message {
+		if which == 1 {
+			m := socket.NewMessage()
+			m.SetSeq(seq)
+			m.SetMtype(erpc.TypeCall)
+			m.SetServiceMethod("/m")
+			m.SetBody(&vxTBody{Text: txt, Num: seq})
+			return m
+		}
+		return vxTMsg(seq, []byte(txt))
+	}
+	newGot := vxNewGot
+	if which == 1 {
+		pf = NewStructProtoFunc()
+		newGot = func() socket.Message {
+			return socket.NewMessage(socket.WithNewBody(func(socket.Header) interface{} { return new(vxTBody) }))
+		}
+	}
+	alone := func(m socket.Message) uint32 {
+		vxAssume(pf(&vxTBuf{}).Pack(m) == nil)
+		return m.Size()
+	}
+	sa, sb := alone(mk(1, "first-message-longer")), alone(mk(2, "second"))
+	w := &vxTBuf{}
+	p := pf(w)
+	ma, mb := mk(1, "first-message-longer"), mk(2, "second")
+	vxRaceDetect(true)
+	if pre > 0 {
+		vxSched(1, pre)
+	}
+	done := make(chan error, 2)
+	go func() { done <- p.Pack(ma) }()
+	go func() { done <- p.Pack(mb) }()
+	e1, e2 := <-done, <-done
+	vxSched(0, 0)
+	vxAssert(e1 == nil && e2 == nil, "both concurrent packs succeed")
+	vxAssert(ma.Size() == sa && mb.Size() == sb, "the size reported for a message written concurrently with another depends on that message alone")
+	vxAssert(len(w.data) == int(sa+sb) || which == 0, "the wire carries exactly the two frames")
+	pr := pf(w)
+	seen := [3]bool{}
+	for k := 0; k < 2; k++ {
+		got := newGot()
+		vxAssert(pr.Unpack(got) == nil, "frames written concurrently are not interleaved: each decodes")
+		if s := got.Seq(); s == 1 || s == 2 {
+			seen[s] = true
+		}
+	}
+	vxAssert(seen[1] && seen[2], "both messages arrive")
+	vxCover("c05.thrift.concurrent-pack")
+}
